@@ -232,7 +232,8 @@ fn shard(seed: u64, shard: u64, n: u64) -> Tally {
                     0 => parts[0] = String::new(),
                     1 => parts[0] = format!("{} ", parts[0]),
                     2 => parts[0] = "AK=IA+x".to_string(),
-                    3 => parts[0] = format!("AKIA{}", "Z9".repeat(62)),
+                    // (128 characters — the longest an IAM key id gets — and well beyond: the provider is asked for all of it)
+                    3 => parts[0] = format!("AKIA{}", "Z9".repeat(62 + r.usize_below(3) * 40)),
                     4 => parts[0] = format!("{}%41%2F", parts[0]),
                     5 => parts[0] = format!("{}{}", pad, parts[0]),
                     _ => parts[0] = format!("{}{}", parts[0], pad),
